@@ -9,9 +9,79 @@ RULE = ("stories = hand-picked same-turn/close-window scenarios + (thorough) eve
         "within a story of at least 8 labelled callbacks; distinct by label sequence")
 
 
+def deadline_probe():
+    """Unanswered request-response calls with several timeouts on an established session (one of them with a response arriving a few
+    milliseconds AFTER its deadline): [(timeout, seconds after which the call failed, error class, handlers/timers left)]."""
+    import asyncio
+    from vlib import conntrace, simnet
+    from vlib.privnames import priv
+
+    async def go(loop):
+        from aioesphomeapi import api_pb2 as pb
+        net = simnet.Net(loop)
+        out = []
+        with net.patched():
+            cli, tr = await simnet.connected_client(loop, net, keepalive=3600.0)
+            conn = priv(cli, "_connection")
+            base = {k.__name__: len(v) for k, v in priv(conn, "_message_handlers").items() if len(v)}
+            for tmo in (0.25, 1.0, 3.0, 10.0):
+                t0 = loop.time()
+                task = asyncio.ensure_future(conn.send_messages_await_response_complex((pb.DeviceInfoRequest(),), None, None, (pb.DeviceInfoResponse,), tmo))
+                await simnet.drain(loop)
+                await simnet.advance(loop, to=t0 + tmo)
+                at_deadline = task.done()
+                if not at_deadline:
+                    # a response that arrives after the deadline is not this call's response any more
+                    await simnet.advance(loop, by=0.004)
+                    if not task.done():
+                        tr.feed(simnet.plain_msg(pb.DeviceInfoResponse(name="late")))
+                        await simnet.drain(loop)
+                    await simnet.advance(loop, by=30.0)
+                elapsed = None
+                if not task.done():
+                    task.cancel()
+                    await simnet.drain(loop)
+                    res = "pending"
+                elif task.cancelled():
+                    res = "cancelled"
+                elif task.exception() is None:
+                    res = "returned " + str([type(m).__name__ for m in task.result()])
+                else:
+                    res = conntrace.exc_name(task.exception())
+                left = {k.__name__: len(v) for k, v in priv(conn, "_message_handlers").items() if len(v)}
+                timers = [n for _, n in loop.armed_timers() if "timeout" in n.lower()]
+                out.append([tmo, at_deadline, res, left != base or bool(timers)])
+            await cli.disconnect(force=True)
+            await simnet.drain(loop)
+        return out
+    return simnet.run(go)
+
+
 def run(rep, tier, seed):
     connfamily.run(rep, tier, seed, "C11", VFILE, RULE)
+    # the deadline of a call, on this platform and with the library imported as on Windows (constants derived from sys.platform at import)
+    import sys
+    from vlib import otherplatform
+    for platform in (sys.platform, "win32"):
+        res = deadline_probe() if platform == sys.platform else otherplatform.run_under(platform, "checks.c11", "deadline_probe")
+        rep.case(("deadline", platform), True, sample={"deadline_probe": platform, "result": res})
+        rep.bump("probe:deadline:" + platform)
+        bad = [r for r in res if not r[1] or r[2] != "L.Timeout" or r[3]]
+        if bad:
+            tmo, at_deadline, how, left = bad[0]
+            rep.violation("C11/timeout-time", f"library imported with sys.platform={platform!r}: an unanswered call with timeout {tmo} s "
+                          f"{'had failed' if at_deadline else 'was still waiting'} when its timeout had passed; it ended: {how}{'; handlers / timers left' if left else ''} "
+                          f"(a call fails with a timeout error exactly at its timeout)", {"kind": "deadline-probe", "platform": platform})
 
 
 def replay(path):
+    import json
+    import sys
+    d = json.loads(open(path).read())["replay"]
+    if d.get("kind") == "deadline-probe":
+        from vlib import common, otherplatform
+        common.setup_impl_path()
+        res = deadline_probe() if d["platform"] == sys.platform else otherplatform.run_under(d["platform"], "checks.c11", "deadline_probe")
+        print(res)
+        return 1 if [r for r in res if not r[1] or r[2] != "L.Timeout" or r[3]] else 0
     return connfamily.replay(path, "C11")
